@@ -404,3 +404,70 @@ func parseModel(resp string, syms map[string]*Term) map[string]interface{} {
 	}
 	return m
 }
+
+
+// CheckSet decides the conjunction of conjs (no incremental stack: used with
+// constraint-independence slicing, where consecutive queries share little).
+func (s *Solver) CheckSet(conjs []*Term, syms map[string]*Term) (SatResult, map[string]interface{}) {
+	s.popTo(0)
+	t0 := time.Now()
+	s.Queries++
+	for _, c := range conjs {
+		s.declare(c, 0)
+	}
+	for _, sy := range syms {
+		s.declare(sy, 0)
+	}
+	s.send("(push 1)")
+	for _, c := range conjs {
+		s.send("(assert " + c.String() + ")")
+	}
+	s.send("(check-sat)")
+	resp, err := s.readSexp()
+	res := Unknown
+	if err != nil {
+		s.Errors = append(s.Errors, "solver died: "+err.Error())
+	}
+	for strings.HasPrefix(resp, "(error") {
+		s.Errors = append(s.Errors, resp)
+		resp, err = s.readSexp()
+		if err != nil {
+			break
+		}
+		if resp == "sat" || resp == "unsat" || resp == "unknown" {
+			resp = "unknown"
+		}
+	}
+	switch resp {
+	case "sat":
+		res = Sat
+	case "unsat":
+		res = Unsat
+	}
+	var model map[string]interface{}
+	if res == Sat && len(syms) > 0 {
+		var names []string
+		for _, n := range sortedSymNames(syms) {
+			names = append(names, smtSym(n))
+		}
+		s.send("(get-value (" + strings.Join(names, " ") + "))")
+		mresp, err := s.readSexp()
+		if err != nil || strings.HasPrefix(mresp, "(error") {
+			s.Errors = append(s.Errors, "get-value: "+mresp)
+			res = Unknown
+		} else {
+			model = parseModel(mresp, syms)
+		}
+	}
+	s.send("(pop 1)")
+	switch res {
+	case Sat:
+		s.NSat++
+	case Unsat:
+		s.NUnsat++
+	default:
+		s.NUnknown++
+	}
+	s.Time += time.Since(t0)
+	return res, model
+}
